@@ -156,3 +156,5 @@ Print Assumptions C08_totalistic_class_sequence.
 Print Assumptions C08_totalistic_class_sequence_nth.
 Print Assumptions C08_all_zero.
 Print Assumptions C08_result_in_range.
+From CPL Require Import gen.GenFuns_C08 GenProps.GenFunsEquivC08 GenProps.C08Src. (* source tie: gen/GenFuns_C08.v is regenerated from ca_functions.py on every run *)
+Theorem C08_source_tie : (forall (n : nat) (s : Z) (k rule : N), src_totalistic_rule (Z.of_nat n) s k rule = totalistic_ns false n s k rule) /\ (forall (k rule : N) (cells : list Z) (c : Z) (t : nat), src_totalistic_rule_call k rule (Z.of_nat (length cells)) (zsum cells) = TotalisticRule_call k rule false cells c t) /\ (forall (k rule : N) (cells : list Z) (mask : list bool) (c : Z) (t : nat), src_totalistic_rule_call k rule (Z.of_nat (length cells)) (zsum (unmasked cells mask)) = TotalisticRule_call_masked k rule false cells mask c t). Proof. exact C08_source_translation_agrees. Qed. Print Assumptions C08_source_tie.
